@@ -76,6 +76,8 @@ def run(ctx, tier):
     results += c03.sorted_registry(ctx, rule='C04.registry-discipline')
     results += c03.release_sites(ctx, rule='C04.release-site')
     results += c03.deregister_only_own(ctx, rule='C04.deregister-only-own')
+    import c10
+    results += c10.release_per_entry(ctx, rule='C04.release-per-entry')
     return dict(
         results=results, stats=dict(ctx.stats),
         explanation=(
